@@ -550,13 +550,16 @@ class Differ:
         parent: Any = kwargs.pop("rhs_parent", None)
         parentref: Any = kwargs.pop("parentref", None)
         node_coord = NodeCoords(rhs, parent, parentref)
-        if len(rhs) > 0:
-            if isinstance(rhs[0], CommentedMap):
-                # This list is an Array-of-Hashes
-                self._diff_arrays_of_hashes(path, lhs, rhs, node_coord)
-            else:
-                # This list is an Array-of-Arrays or a simple list of Scalars
-                self._diff_arrays_of_scalars(path, lhs, rhs, node_coord)
+        if len(rhs) > 0 and isinstance(rhs[0], CommentedMap):
+            # This list is an Array-of-Hashes
+            self._diff_arrays_of_hashes(path, lhs, rhs, node_coord)
+        elif len(rhs) > 0 or len(lhs) > 0:
+            # This list is an Array-of-Arrays or a simple list of Scalars; an
+            # empty RHS list means every LHS element has been deleted
+            self._diff_arrays_of_scalars(path, lhs, rhs, node_coord)
+        else:
+            # Both lists are empty
+            self._diffs.append(DiffEntry(DiffActions.SAME, path, lhs, rhs))
 
     # pylint: disable=too-many-locals
     def _diff_sets(
